@@ -213,3 +213,26 @@ def run(repo: Repo, rep: Report, tier: str) -> None:
     presets = [c2 for c2 in calls_in(mul.node, "create_and_add_placement")]
     ok = bool(presets) and not any(k.arg and k.arg.endswith("_operand_signal_id") for k in presets[0].keywords)
     rep.check(ok, "C05-R4", "the multiplier placement carries no *_operand_signal_id", "no signal-id keys" if ok else "signal id present", mul.loc())
+
+    # ---------------- R5 ---------------------------------------------------------------
+    rep.rule("C05-R5", "a latch is built on one combinator with inlined set/reset conditions only when both conditions compare the same input: the success return of "
+             "_try_extract_inline_conditions is guarded by equality of the two compared names (or of the two producers), not merely of their signal types")
+    from .util import cguards as _cg5
+    tei = ml.methods["_try_extract_inline_conditions"]
+    c5 = canon(tei)
+    succ = [n for n in walk_local(tei.node) if isinstance(n, ast.Return) and isinstance(n.value, ast.Tuple) and len(n.value.elts) == 2 and all(isinstance(e, ast.Tuple) for e in n.value.elts)]
+    rep.floor("C05-R5", "success returns of the inline-condition extractor", len(succ), 1)
+    SN = "self._extract_simple_comparison(set_expr)[0]"
+    RN = "self._extract_simple_comparison(reset_expr)[0]"
+    for r5 in succ:
+        gs5 = _cg5(tei, r5)
+        same_name = any(pol and g in (f"{SN} == {RN}", f"{RN} == {SN}") for g, pol in gs5)
+        a5, b5 = c5.text(r5.value.elts[0].elts[0]), c5.text(r5.value.elts[1].elts[0])
+        same_prod = any(pol and ".source_id ==" in g and ".source_id" in g.split("==")[1] for g, pol in gs5)
+        ok5 = (same_name and a5 == b5) or same_prod
+        rep.check(ok5, "C05-R5", "inlined set/reset conditions compare one and the same input",
+                  "guarded by set name == reset name; both conditions carry the one lowered reference" if ok5 else
+                  f"guards {[g[-70:] for g, p in gs5 if p]} do not identify the two inputs: two different inputs on one signal type share the latch's single input wire, the reset input is never connected", tei.loc(r5))
+    rep.rule("C05-R6", "rewriting references in a latch write keeps set and reset apart: each operand slot is rebuilt from its own old value")
+    from .shared import slot_rewrites_are_self_referential as _srs
+    _srs(repo, rep, "C05-R6", only_class="IRLatchWrite")
